@@ -236,7 +236,12 @@ class AppMutator(BaseMutator):
         ChangeFields), and then looks in each batch for any changes to fields
         that become unnecessary (due to field deletion).
         """
-        mutation_batches = self._create_mutation_batches(mutations)
+        # The optimizations below rewrite mutations in place (renaming fields,
+        # merging attributes). Work on copies, so that the caller's mutation
+        # instances (usually an evolution module's MUTATIONS list) are left
+        # untouched and can be processed again.
+        mutation_batches = self._create_mutation_batches(
+            copy.deepcopy(mutations))
 
         # Go through all the mutation batches and get our resulting set of
         # mutations to apply to the database.
